@@ -240,7 +240,7 @@ func (s *DateYearShard) EqualStart(key interface{}, index int) bool {
 		return false
 	}
 
-	return numYear == index
+	return numYear == index && isDateKeyPeriodStart(key, 0)
 }
 
 type DateMonthShard struct {
@@ -301,7 +301,7 @@ func (s *DateMonthShard) EqualStart(key interface{}, index int) bool {
 		return false
 	}
 
-	return numYear == index
+	return numYear == index && isDateKeyPeriodStart(key, 1)
 }
 
 type DateDayShard struct {
@@ -362,7 +362,50 @@ func (s *DateDayShard) EqualStart(key interface{}, index int) bool {
 		return false
 	}
 
-	return numYear == index
+	return numYear == index && isDateKeyPeriodStart(key, 2)
+}
+
+// isDateKeyPeriodStart reports whether key is the first instant of its year (unit 0),
+// month (unit 1) or day (unit 2). EqualStart may only answer true for such keys: a key
+// later in the period has smaller keys in the same table, so the table must not be
+// pruned for "column < key". Unknown spellings are conservatively not a period start.
+func isDateKeyPeriodStart(key interface{}, unit int) bool {
+	var tm time.Time
+	switch val := key.(type) {
+	case int:
+		tm = time.Unix(int64(val), 0)
+	case uint64:
+		tm = time.Unix(int64(val), 0)
+	case int64:
+		tm = time.Unix(val, 0)
+	case string:
+		// YYYY-MM-DD or YYYY-MM-DD HH:MM:SS
+		if len(val) < 10 {
+			return false
+		}
+		if len(val) > 10 && val[10:] != " 00:00:00" {
+			return false
+		}
+		if unit <= 1 && val[8:10] != "01" {
+			return false
+		}
+		if unit == 0 && val[5:7] != "01" {
+			return false
+		}
+		return true
+	default:
+		return false
+	}
+	if tm.Hour() != 0 || tm.Minute() != 0 || tm.Second() != 0 {
+		return false
+	}
+	if unit <= 1 && tm.Day() != 1 {
+		return false
+	}
+	if unit == 0 && tm.Month() != time.January {
+		return false
+	}
+	return true
 }
 
 type DefaultShard struct {
